@@ -1455,6 +1455,7 @@ func ruleDispatchConserves(r *Run, rule string) {
 					continue
 				}
 				n := 0
+				nStop := 0
 				// loops (for / range) whose body defines an instruction variable, decides, and branches
 				ast.Inspect(fd.Body, func(m ast.Node) bool {
 					var body *ast.BlockStmt
@@ -1510,6 +1511,21 @@ func ruleDispatchConserves(r *Run, rule string) {
 									if id, ok := as.Lhs[0].(*ast.Ident); ok && uses {
 										if o := info.Defs[id]; o != nil && typeName(o.Type()) == "bool" {
 											pushVar = o
+											// the second answer: stop looking at younger instructions this cycle
+											if id2, ok := as.Lhs[1].(*ast.Ident); ok {
+												if o2 := info.Defs[id2]; o2 != nil && typeName(o2.Type()) == "bool" {
+													honoured := false
+													for _, st2 := range body.List {
+														if is2, ok := st2.(*ast.IfStmt); ok && st2.Pos() > as.Pos() {
+															if c2, ok := ast.Unparen(is2.Cond).(*ast.Ident); ok && info.Uses[c2] == o2 && terminates(is2.Body.List) {
+																honoured = true
+															}
+														}
+													}
+													nStop++
+													r.check(honoured, rule, fmt.Sprintf("%s.%s:stop-honoured#%d", v.rel, declName(fd), nStop), as.Pos(), "when the dispatch decision says stop, the loop over the instructions is left (nothing younger is looked at in this cycle)")
+												}
+											}
 										}
 									}
 								}
